@@ -22,6 +22,7 @@
 import YashModel.Trap.Pending
 import YashModel.Trap.Sticky
 import YashModel.Trap.KillStop
+import YashModel.Trap.BuiltinLemmas
 namespace YashModel.Trap
 
 /-! ## The installed disposition is the reference merge -/
@@ -365,6 +366,63 @@ example :
     let r := runTrapsForCaughtSignals body false t 5
     (r.runs, r.divert, pendingCommands r.traps) = ([(SIGINT, 2)], some (.ret (some 3)), [(SIGUSR1, 1)])
     ∧ (boundaries body [5, 3] t []).2 = [(SIGINT, 2), (SIGUSR1, 1)] := by
+  decide
+
+/-! ## The `trap` built-in, the poll shortcut, `wait` -/
+
+/-- ★ every form of the `trap` built-in (print all, `-p`, `-p COND…`, set / reset / ignore for any
+    list of named or numeric conditions, with its syntax errors and with KILL/STOP/initially-ignored
+    failures) keeps the invariant: the built-in only composes `peek_state` and `set_action`. -/
+theorem trap_builtin_preserves_invariant (init : Nat → Disp) (hinit : ∀ s, init s ≠ .catch)
+    (cmdOf : String → Nat) (st : State) (origin : Nat) (interactive print : Bool) (operands : List String)
+    (h : Inv init st) : Inv init (trapMain cmdOf st origin interactive print operands).st :=
+  inv_trapMain init hinit cmdOf st origin interactive print operands h
+
+/-- ★ `trap ACTION … KILL …` / `… STOP …` always fails the built-in (an error other than
+    `InitiallyIgnored` is reported), whatever else is in the list -/
+theorem trap_builtin_kill_stop_fails (a : Action) (origin : Nat) (ov : Bool) (conds : List Nat)
+    (st : State) (k : Nat) (hk : k = SIGKILL ∨ k = SIGSTOP) (hm : k ∈ conds) :
+    ∃ e, e ∈ (setActions a origin ov conds st).2 ∧ e ≠ .initiallyIgnored :=
+  setActions_killStop a origin ov conds st k hk hm
+
+/-- ★ `trap -p COND` right after a successful `trap ACTION COND` prints exactly that action
+    (default as `-`, ignore as `''`, a command as itself) -/
+theorem trap_print_reads_back (st : State) (c : Nat) (a : Action) (origin : Nat) (ov : Bool)
+    (hok : (setAction st c a origin ov).2 = none) :
+    (displayTrap (setAction st c a origin ov).1 c true).2 = [{ action := a, cond := c }] :=
+  print_reads_back st c a origin ov hok
+
+example : (setAction (State.init fun _ => .default) SIGINT (.command 1) 0 false).2 = none := by decide
+
+/-- ★ the runner including its poll and the SIGINT shortcut of interactive shells (a caught SIGINT
+    without a user trap interrupts at once, even inside a trap): whatever was collected, what ran
+    plus what is still pending is what was pending after the poll — the shortcut loses nothing. -/
+theorem poll_shortcut_loses_nothing (body : Body) (hm : MapPreserving body) (polled : List Nat)
+    (t : TrapMap) (exit : Int) :
+    (runTrapsAfterPoll body false polled t exit).runs
+        ++ pendingCommands (runTrapsAfterPoll body false polled t exit).traps
+      = pendingCommands (polled.foldl catchSignal t) :=
+  runTrapsAfterPoll_conserve body hm polled t exit
+
+/-- ★ `wait` interrupted by trapped signals (`wait_for_any_job_or_trap` + `run_trap_if_caught`):
+    for the signals reported by the system in any order, at most one action runs (the first caught
+    signal whose action is a command) and, for every signal `x`, the run made for `x` followed by what
+    is still owed to `x` is what was owed to `x` — the other caught signals keep their pending flag
+    for the next command boundary, and none runs twice. -/
+theorem wait_interrupt_conserves (body : Body) (hm : MapPreserving body) (sigs : List Nat)
+    (h0 : ¬ (0 ∈ sigs)) (t : TrapMap) (exit : Int) (x : Nat) :
+    ranFor (waitTrapLoop body sigs t exit).2 x ++ owed (get (waitTrapLoop body sigs t exit).1 x) x
+      = owed (get t x) x :=
+  waitTrapLoop_conserve body hm sigs h0 t exit x
+
+/-- non-vacuity: USR1 and INT both caught while waiting, reported in that order: USR1's action
+    interrupts the wait, INT's is still pending afterwards -/
+example :
+    let t : TrapMap := catchSignal (catchSignal
+      (set (set [] SIGUSR1 { current := { action := .command 1, origin := .user 0 } })
+        SIGINT { current := { action := .command 2, origin := .user 1 } }) SIGINT) SIGUSR1
+    let r := waitTrapLoop (fun _ _ t => ({ exit := 0 }, t)) [SIGUSR1, SIGINT] t 0
+    (r.2.map fun x => (x.1, x.2.1)) = some (SIGUSR1, 1) ∧ pendingCommands r.1 = [(SIGINT, 2)] := by
   decide
 
 end YashModel.Trap
